@@ -255,7 +255,10 @@ def _dead_at(caller, call, v):
         if isinstance(n, ast.Name) and n.id == v:
             order.append(("store" if isinstance(n.ctx, (ast.Store, ast.Del)) else "load", n))
         elif n is call:
+            for ch in ast.iter_child_nodes(n):       # the arguments are evaluated before the call happens
+                dfs(ch)
             order.append(("call", n))
+            return
         if isinstance(n, (ast.Assign, ast.AugAssign, ast.AnnAssign)):
             # value before targets
             if getattr(n, "value", None) is not None:
@@ -426,8 +429,11 @@ def inline_helpers(tree, ref_units):
             return None
         # parameters that the helper rebinds cannot be substituted
         stored = {x.id for st in body for x in ast.walk(st) if isinstance(x, ast.Name) and isinstance(x.ctx, (ast.Store, ast.Del))}
-        if stored & set(mapping):
-            return None
+        rebound = stored & set(mapping)
+        if rebound:
+            # a parameter the helper rebinds: fine when the argument is the caller's variable of the same name and the caller does not read it afterwards
+            if not all(isinstance(mapping[p_], ast.Name) and mapping[p_].id == p_ and (caller_fn is None or _dead_at(caller_fn, call, p_)) for p_ in rebound):
+                return None
         # `a, b = helper(…)` where the helper ends in `return x, y`: the helper's x, y ARE the caller's a, b
         unify = {}
         if targets is not None and ret is not None:
@@ -693,6 +699,9 @@ def apply(tree, ref):
     n = inline_helpers(tree, ref_units)
     if n:
         out["<helper calls inlined>"] = n
+    n = renest(tree, ref_units)
+    if n:
+        out["<callbacks nested again>"] = n
     return out
 
 
@@ -814,13 +823,95 @@ def _stmt_idioms(fn, direction):
     return n
 
 
-def try_idioms(fn, names_of, skeleton_of, want_skeleton):
+def _comprehension_to_loop(fn):
+    """`L = [E for t in X if C]` -> `L = []` ; `for t in X: if C: L.append(E)`      `D = {K: V for …}` -> `D = {}` ; loop with `D[K] = V`   (single generator)"""
+    n = 0
+    for parent, field, seq in list(_blocks(fn)):
+        i = 0
+        while i < len(seq):
+            st = seq[i]
+            if isinstance(st, ast.Assign) and len(st.targets) == 1 and isinstance(st.targets[0], ast.Name) and isinstance(st.value, (ast.ListComp, ast.DictComp, ast.SetComp)) and \
+                    len(st.value.generators) == 1 and not st.value.generators[0].is_async:
+                c = st.value
+                g = c.generators[0]
+                tgt = st.targets[0].id
+                if isinstance(c, ast.ListComp):
+                    init = ast.List(elts=[], ctx=ast.Load())
+                    inner = ast.Expr(value=ast.Call(func=ast.Attribute(value=ast.Name(id=tgt, ctx=ast.Load()), attr="append", ctx=ast.Load()), args=[c.elt], keywords=[]))
+                elif isinstance(c, ast.SetComp):
+                    init = ast.Call(func=ast.Name(id="set", ctx=ast.Load()), args=[], keywords=[])
+                    inner = ast.Expr(value=ast.Call(func=ast.Attribute(value=ast.Name(id=tgt, ctx=ast.Load()), attr="add", ctx=ast.Load()), args=[c.elt], keywords=[]))
+                else:
+                    init = ast.Dict(keys=[], values=[])
+                    inner = ast.Assign(targets=[ast.Subscript(value=ast.Name(id=tgt, ctx=ast.Load()), slice=c.key, ctx=ast.Store())], value=c.value, type_comment=None)
+                body = [inner]
+                for cond in reversed(g.ifs):
+                    body = [ast.If(test=cond, body=body, orelse=[])]
+                loop = ast.For(target=g.target, iter=g.iter, body=body, orelse=[], type_comment=None)
+                a = ast.copy_location(ast.Assign(targets=[ast.Name(id=tgt, ctx=ast.Store())], value=init, type_comment=None), st)
+                seq[i:i + 1] = [a, ast.copy_location(loop, st)]
+                ast.fix_missing_locations(seq[i])
+                ast.fix_missing_locations(seq[i + 1])
+                n += 1
+                i += 1
+            i += 1
+    return n
+
+
+def _loop_to_comprehension(fn):
+    """the inverse of _comprehension_to_loop for the plain shapes `L = []` ; `for t in X: [if C:] L.append(E)`"""
+    n = 0
+    for parent, field, seq in list(_blocks(fn)):
+        i = 0
+        while i + 1 < len(seq):
+            a, lp = seq[i], seq[i + 1]
+            if isinstance(a, ast.Assign) and len(a.targets) == 1 and isinstance(a.targets[0], ast.Name) and isinstance(lp, ast.For) and not lp.orelse and len(lp.body) == 1:
+                tgt = a.targets[0].id
+                body = lp.body[0]
+                ifs = []
+                while isinstance(body, ast.If) and not body.orelse and len(body.body) == 1:
+                    ifs.append(body.test)
+                    body = body.body[0]
+                new = None
+                if isinstance(a.value, ast.List) and not a.value.elts and isinstance(body, ast.Expr) and isinstance(body.value, ast.Call) and isinstance(body.value.func, ast.Attribute) and \
+                        body.value.func.attr == "append" and isinstance(body.value.func.value, ast.Name) and body.value.func.value.id == tgt and len(body.value.args) == 1:
+                    new = ast.ListComp(elt=body.value.args[0], generators=[ast.comprehension(target=lp.target, iter=lp.iter, ifs=ifs, is_async=0)])
+                elif isinstance(a.value, ast.Dict) and not a.value.keys and isinstance(body, ast.Assign) and len(body.targets) == 1 and isinstance(body.targets[0], ast.Subscript) and \
+                        isinstance(body.targets[0].value, ast.Name) and body.targets[0].value.id == tgt:
+                    new = ast.DictComp(key=body.targets[0].slice, value=body.value, generators=[ast.comprehension(target=lp.target, iter=lp.iter, ifs=ifs, is_async=0)])
+                if new is not None and not any(isinstance(x, ast.Name) and x.id == tgt for x in ast.walk(new)):
+                    seq[i:i + 2] = [ast.copy_location(ast.Assign(targets=a.targets, value=new, type_comment=None), a)]
+                    ast.fix_missing_locations(seq[i])
+                    n += 1
+            i += 1
+    return n
+
+
+def try_idioms(fn, names_of, skeleton_of, want_skeleton, sigs=None, owner_class=None):
     """if rewriting the library idioms of `fn` into their sibling forms makes the unit structurally identical to the reference unit, adopt the rewrite"""
+    from .alpha import _Positional
+    steps = []
     for direction in (0, 1, 2, 3):
+        steps.append(("idiom", direction))
+    steps += [("comp2loop", 0), ("loop2comp", 0), ("positional", 0), ("positional", 1)]
+    # single steps first, then positional combined with each (keyword spelling is the commonest companion of another edit)
+    plans = [[s_] for s_ in steps] + [[("positional", d), s_] for d in (0, 1) for s_ in steps if s_[0] != "positional"]
+    for plan in plans:
         c = copy.deepcopy(fn)
-        tr = _Idioms(direction)
-        c = tr.visit(c)
-        k = tr.n + _stmt_idioms(c, direction)
+        k = 0
+        for kind, direction in plan:
+            if kind == "idiom":
+                tr = _Idioms(direction)
+                c = tr.visit(c)
+                k += tr.n + _stmt_idioms(c, direction)
+            elif kind == "comp2loop":
+                k += _comprehension_to_loop(c)
+            elif kind == "loop2comp":
+                k += _loop_to_comprehension(c)
+            elif kind == "positional" and sigs:
+                tr = _Positional(sigs, drop_first=bool(direction), owner_class=owner_class)
+                c = tr.visit(c)
+                k += tr.n
         if not k:
             continue
         ast.fix_missing_locations(c)
@@ -828,3 +919,137 @@ def try_idioms(fn, names_of, skeleton_of, want_skeleton):
             fn.body = c.body
             return k
     return 0
+
+
+# ------------------------------------------------------------------------------------------------------------------ callbacks moved out of their function
+def renest(tree, ref_units):
+    """a function the reference module does not have, used exactly once, as a VALUE (a callback handed to a scheduler / executor / database runner), inside a unit the
+    reference has: put it back as a nested function in front of that statement.  Arguments that travel with it and are the unit's own variables under the names of
+    the function's parameters (`partial(self._m, peer)`, `run(self._m, txs, address)`, `lambda fut: self._m(writer, fut)`) become closure variables again."""
+    from .alpha import units
+    us = units(tree)
+    new = {q: fn for q, fn in us if q not in ref_units and "#" not in q}
+    if not new:
+        return 0
+    names_in_ref = {q.split(".")[-1].split("#")[0] for q in ref_units}
+    n_done = 0
+    for q, m in list(new.items()):
+        name = q.split(".")[-1]
+        if name in names_in_ref or any(isinstance(x, (ast.Yield, ast.YieldFrom)) for x in ast.walk(m)):
+            continue
+        decs = {d.id for d in m.decorator_list if isinstance(d, ast.Name)}
+        if m.decorator_list and not decs <= {"staticmethod", "classmethod"} or "classmethod" in decs:
+            continue
+        is_method = "." in q and "staticmethod" not in decs
+        a = m.args
+        if a.vararg or a.kwarg or a.posonlyargs or a.kwonlyargs or a.defaults:
+            continue
+        params = [x.arg for x in a.args]
+        if is_method:
+            if not params or params[0] != "self":
+                continue
+            params = params[1:]
+        # every reference to the function in the module
+        refs = []
+        parent_of = {}
+        for node in ast.walk(tree):
+            for ch in ast.iter_child_nodes(node):
+                parent_of[id(ch)] = node
+        for node in ast.walk(tree):
+            if any(node is x for x in ast.walk(m)):
+                continue
+            if is_method and isinstance(node, ast.Attribute) and node.attr == name and isinstance(node.value, ast.Name) and node.value.id == "self":
+                refs.append(node)
+            elif not is_method and isinstance(node, ast.Name) and node.id == name and isinstance(node.ctx, ast.Load):
+                refs.append(node)
+            elif not is_method and isinstance(node, ast.Attribute) and node.attr == name:
+                refs.append(node)
+        if len(refs) != 1:
+            continue
+        v = refs[0]
+        host = next(((uq, u) for uq, u in us if uq in ref_units and any(x is v for x in ast.walk(u))), None)
+        if host is None:
+            continue
+        uq, u = host
+        if is_method and (uq.rsplit(".", 1)[0] != q.rsplit(".", 1)[0]):
+            continue
+        p = parent_of.get(id(v))
+        outer_names = {x.id for x in ast.walk(u) if isinstance(x, ast.Name)} | {x.arg for x in ast.walk(u) if isinstance(x, ast.arg)}
+        keep_params = list(params)
+        subst = {}
+        replace_node, replacement_target = v, None
+
+        def names_match(args, ps):
+            return len(args) == len(ps) and all(isinstance(x, ast.Name) and x.id == p_ for x, p_ in zip(args, ps))
+        if isinstance(p, ast.Call) and p.func is v:
+            # a direct call is the business of inline_helpers — unless it is the whole body of a lambda
+            lam = parent_of.get(id(p))
+            if not (isinstance(lam, ast.Lambda) and lam.body is p) or p.keywords or len(p.args) != len(params):
+                continue
+            lam_params = [x.arg for x in lam.args.args]
+            keep_params = []
+            ok = True
+            for prm, arg in zip(params, p.args):
+                if isinstance(arg, ast.Name) and arg.id in lam_params:
+                    keep_params.append(prm)
+                elif isinstance(arg, ast.Name):
+                    if arg.id != prm:
+                        subst[prm] = arg
+                else:
+                    ok = False
+            if not ok or [x for x in lam_params if x in [a_.id for a_ in p.args if isinstance(a_, ast.Name)]] != [a_.id for a_ in p.args if isinstance(a_, ast.Name) and a_.id in lam_params]:
+                continue
+            replace_node = lam
+        elif isinstance(p, ast.Call) and isinstance(p.func, (ast.Name, ast.Attribute)) and (getattr(p.func, "id", None) == "partial" or getattr(p.func, "attr", None) == "partial") and \
+                p.args and p.args[0] is v and not p.keywords:
+            bound = p.args[1:]
+            if names_match(bound, params[:len(bound)]):
+                keep_params = params[len(bound):]
+                replace_node = p
+        elif isinstance(p, ast.Call) and any(x is v for x in p.args):
+            j = next(i for i, x in enumerate(p.args) if x is v)
+            trail = p.args[j + 1:]
+            if trail and len(trail) < len(params) and names_match(trail, params[len(params) - len(trail):]):
+                keep_params = params[:len(params) - len(trail)]
+                del p.args[j + 1:]
+        # build the nested function
+        body = list(m.body)
+        if body and isinstance(body[0], ast.Expr) and isinstance(body[0].value, ast.Constant) and isinstance(body[0].value.value, str) and len(body) > 1:
+            body = body[1:]
+        nested = type(m)(name=name, args=ast.arguments(posonlyargs=[], args=[ast.arg(arg=x, annotation=None) for x in keep_params], vararg=None, kwonlyargs=[], kw_defaults=[],
+                                                        kwarg=None, defaults=[]), body=[_Subst(subst).visit(copy.deepcopy(x)) for x in body], decorator_list=[], returns=None, type_comment=None)
+        if hasattr(nested, "type_params"):
+            nested.type_params = []
+        # place it before the statement that uses it
+        placed = False
+        for parent, field, seq in _blocks(u):
+            for i, st in enumerate(seq):
+                if any(x is replace_node for x in ast.walk(st)) and not any(any(x is replace_node for x in ast.walk(s2)) for s2 in ast.iter_child_nodes(st) if isinstance(s2, ast.stmt)):
+                    ast.copy_location(nested, st)
+                    ast.fix_missing_locations(nested)
+                    _relocate(nested, st)
+                    seq.insert(i, nested)
+                    placed = True
+                    break
+            if placed:
+                break
+        if not placed:
+            continue
+        nm = ast.copy_location(ast.Name(id=name, ctx=ast.Load()), replace_node)
+        pr = parent_of.get(id(replace_node))
+        for fld, val in ast.iter_fields(pr):
+            if isinstance(val, list):
+                for k, ch in enumerate(val):
+                    if ch is replace_node:
+                        val[k] = nm
+            elif val is replace_node:
+                setattr(pr, fld, nm)
+        # drop the moved-out definition
+        for parent in ast.walk(tree):
+            seq = getattr(parent, "body", None)
+            if isinstance(seq, list) and m in seq:
+                seq.remove(m)
+                if not seq:
+                    seq.append(ast.copy_location(ast.Pass(), m))
+        n_done += 1
+    return n_done
